@@ -152,9 +152,24 @@ structure St where
   m : Mqtt.Model.Broker.B := {}
   s : Mqtt.Spec.Broker.S := {}
 
+/-- `firstp <c> connect … ; <packet…>`: the CONNECT and a further packet written in one go, before
+the CONNACK is read (MQTT 3.1.1 §3.1.4 allows it): two events, one output line -/
+def splitSemi (ws : List String) : List String × List String :=
+  (ws.takeWhile (· != ";"), (ws.dropWhile (· != ";")).drop 1)
+
 def handle (st : St) (ws : List String) : St × String × String :=
   match ws with
   | ["reset"] => ({}, "reset", "reset")
+  | "firstp" :: c :: rest =>
+    let (a, b) := splitSemi rest
+    match parseEv ("first" :: c :: a), parseEv ("pkt" :: c :: b) with
+    | some e1, some e2 =>
+      let (m1, mo1) := Mqtt.Model.Broker.step st.m e1
+      let (m2, mo2) := Mqtt.Model.Broker.step m1 e2
+      let (s1, so1) := Mqtt.Spec.Broker.step st.s e1
+      let (s2, so2) := Mqtt.Spec.Broker.step s1 e2
+      (⟨m2, s2⟩, showModel (mo1 ++ mo2), showSpec (so1 ++ so2))
+    | _, _ => (st, "bad-op", "bad-op")
   | _ =>
     match parseEv ws with
     | none => (st, "bad-op", "bad-op")
